@@ -25,12 +25,23 @@ Definition b_empty : body := 0.
 Definition b_tomb : body := 1.
 
 Inductive side := Act | Pas.
+
+(* what a conflict resolver answers (db/sg_replicate_conflict_resolver.go ConflictResolver.Resolve): the local
+   document, the remote document, or a merged body (a custom JavaScript resolver that returns a document without
+   the _rev of either candidate; [RMerge b_tomb] is what "return null" yields: the body {"_deleted":true}) *)
+Inductive rres := RLocal | RRemote | RMerge (b : body).
+(* a resolver is a deterministic function of the two candidates: (tombstone flag, revision id, body) of the local
+   and of the remote document.  The built-in policies are instances (default_policy below, local_wins_policy,
+   remote_wins_policy); a custom resolver is ANY such function. *)
+Definition policy := bool -> revid -> body -> bool -> revid -> body -> rres.
+
 Inductive op :=
 | Edit (s : side) (d : N) (b : body)        (* PUT on the current revision (creates the document if absent) *)
 | Delete (s : side) (d : N)                 (* DELETE of the current revision *)
 | Resurrect (s : side) (d : N) (b : body)   (* PUT without a revision on a tombstoned document *)
 | Push (d : N)                              (* Act offers its current revision of d to Pas *)
-| Pull (d : N).                             (* Pas offers its current revision of d to Act *)
+| Pull (d : N)                              (* Pas offers its current revision of d to Act (default resolver) *)
+| PullP (f : policy) (d : N).               (* ... with the resolver f (localWins / remoteWins / custom) *)
 
 Inductive tstatus := TNone | TKnown | TApplied | TConflict | TError.
 Definition tstatus_eqb (a b : tstatus) : bool :=
@@ -68,6 +79,11 @@ Definition local_wins (ldel : bool) (l : revid) (rdel : bool) (r : revid) : bool
 (* the revision both sides keep *)
 Definition resolver_choice (ldel : bool) (l : revid) (rdel : bool) (r : revid) : bool * revid :=
   if local_wins ldel l rdel r then (ldel, l) else (rdel, r).
+
+Definition default_policy : policy :=
+  fun ldel l _ rdel r _ => if local_wins ldel l rdel r then RLocal else RRemote.
+Definition local_wins_policy : policy := fun _ _ _ _ _ _ => RLocal.      (* LocalWinsConflictResolver *)
+Definition remote_wins_policy : policy := fun _ _ _ _ _ _ => RRemote.    (* RemoteWinsConflictResolver *)
 
 (* rev_diff: which of the offered ids the receiver lacks (RevDiff's "missing") *)
 Definition rev_diff (t : tree) (ids : list revid) : list revid :=
@@ -147,7 +163,9 @@ Section Model.
     | None => (p, TError)
     end.
 
-  Definition put_existing (resolver force_tomb : bool) (p : pdoc) (hist : list revid) (deleted : bool) (b : body)
+  (* resolveDocMerge: the merged body becomes a child of the remote leaf; the tombstone flag of the new revision
+     is the flag of the INCOMING revision (newDoc.Deleted is not touched by the merge) *)
+  Definition put_existing (pol : option policy) (force_tomb : bool) (p : pdoc) (hist : list revid) (deleted : bool) (b : body)
     : pdoc * tstatus :=
     let t := ptree p in
     let (nw, parent) := split_known t hist in
@@ -157,13 +175,16 @@ Section Model.
       let d := update_flags t in
       let allow_ts := force_tomb && deleted && ddel d in
       if negb allow_ts && illegal_conflict false true d parent deleted hist then
-        if negb resolver then (p, TConflict)
-        else match dcur d with
+        match pol with
+        | None => (p, TConflict)
+        | Some f =>
+             match dcur d with
              | None => (p, TError)
              | Some l =>
                  let ldel := ddel d in
                  let lbody := match lookup_body (pbody p) l with Some x => x | None => b_empty end in
-                 if local_wins ldel l deleted (wid (hd_error hist)) then
+                 match f ldel l lbody deleted (wid (hd_error hist)) b with
+                 | RLocal =>
                    let '(hist', del', b') := local_wins_rewrite l ldel lbody hist in
                    match tombstone_local p l ldel with
                    | Some p1 => match finish_put p1 hist' del' b' with
@@ -172,7 +193,7 @@ Section Model.
                                 end
                    | None => (p, TError)
                    end
-                 else
+                 | RRemote =>
                    match tombstone_local p l ldel with
                    | Some p1 => match finish_put p1 hist deleted b with
                                 | (p2, TApplied) => (p2, TApplied)
@@ -180,14 +201,24 @@ Section Model.
                                 end
                    | None => (p, TError)
                    end
+                 | RMerge mb =>
+                   match tombstone_local p l ldel with
+                   | Some p1 => match finish_put p1 (mkid (hd_error hist) mb :: hist) deleted mb with
+                                | (p2, TApplied) => (p2, TApplied)
+                                | _ => (p, TError)
+                                end
+                   | None => (p, TError)
+                   end
+                 end
              end
+        end
       else finish_put p hist deleted b
     end.
 
   (* a transfer: offer the sender's current revision; the receiver skips it when rev_diff says it is
      known, otherwise applies it.  Act resolves conflicts with the default policy; Pas rejects them.
      Both sides exempt an incoming tombstone from the conflict check when their document is a tombstone. *)
-  Definition transfer (resolver : bool) (src dst : pdoc) : pdoc * tstatus :=
+  Definition transfer (resolver : option policy) (src dst : pdoc) : pdoc * tstatus :=
     match offer src with
     | None => (dst, TNone)
     | Some (hist, del, b) =>
@@ -211,12 +242,13 @@ Section Model.
     | Edit sd _ b => (on_side sd (fun p => edit p b) v, TNone)
     | Delete sd _ => (on_side sd delete v, TNone)
     | Resurrect sd _ b => (on_side sd (fun p => resurrect p b) v, TNone)
-    | Push _ => let (q, st) := transfer false (fst v) (snd v) in ((fst v, q), st)
-    | Pull _ => let (q, st) := transfer true (snd v) (fst v) in ((q, snd v), st)
+    | Push _ => let (q, st) := transfer None (fst v) (snd v) in ((fst v, q), st)
+    | Pull _ => let (q, st) := transfer (Some default_policy) (snd v) (fst v) in ((q, snd v), st)
+    | PullP f _ => let (q, st) := transfer (Some f) (snd v) (fst v) in ((q, snd v), st)
     end.
 
   Definition op_doc (o : op) : N :=
-    match o with Edit _ d _ | Delete _ d | Resurrect _ d _ | Push d | Pull d => d end.
+    match o with Edit _ d _ | Delete _ d | Resurrect _ d _ | Push d | Pull d | PullP _ d => d end.
 
   Definition step (s : sys) (o : op) : sys := upd s (op_doc o) (fst (dstep (s (op_doc o)) o)).
   Definition step_status (s : sys) (o : op) : tstatus := snd (dstep (s (op_doc o)) o).
